@@ -46,8 +46,8 @@ CHECKS = {
             "Argument tables are the only hand-written spec (domains cited from the constructors' own checks/docstrings); values that collide with wire sentinels are not probed; an RQ that decodes to {} by design has its index compared on the wire; 15 recorded findings (HVAC/WIP constructors, OpenTherm ids unknown to the decoder, DHW countdown/temporary encodings ...).",
             "contract monitor (advertised verb/code, decoder acceptance, decode-back equality) over swept argument tables", "§3 C03"),
     "C10": ("exploration",
-            "Delivery / creation / write monitors against a 10-line reference rule written from the statement, over a sweep of configurations (known/block lists disjoint, overlapping, empty, with/without explicit HGI, second HGI, gateway block-listed, enforcement on/off, the 'enforced but empty' rule) x packets of the three address shapes with src/dst from every id class, on a real port Gateway (fake serial + virtual air) and a real file Gateway: messages seen by an application handler, devices created (incl. ids only *named* in a 000C payload), and frames that reach the serial port from async_send_cmd().",
-            "Reference rule is the oracle; only packets the decoder accepts on their own are used; the hard-wired 01:000001 id is never generated; 'refused though allowed' is judged only when the refusal text names the device filter.",
+            "Delivery / creation / write monitors against a 10-line reference rule written from the statement, over a sweep of configurations (known/block lists disjoint, overlapping, empty, with/without explicit HGI, second HGI, gateway block-listed, enforcement on/off, the 'enforced but empty' rule) x packets of the three address shapes with src/dst from every id class, on a real port Gateway (fake serial + virtual air) and a real file Gateway: messages seen by an application handler, devices created (incl. ids only *named* in a 000C payload), and frames that reach the serial port from async_send_cmd(). Packets reach the gateway three ways: live; from a packet cache at start-up (start(cached_packets=...): what the gateway then holds, saves again and builds devices from is judged); and live after the dongle on the port was swapped for one with another id (stop, new stick, start: the earlier id is then a foreign 18: device).",
+            "Reference rule is the oracle; only packets the decoder accepts on their own are used; the hard-wired 01:000001 id is never generated; 'refused though allowed' is judged only when the refusal text names the device filter; completeness is not judged for restored packets (what a restore keeps also depends on verb and age); one recorded finding (a restore enforces the known_list only when it names exactly one explicit HGI).",
             "reference-rule differential monitor over configuration x packet sweeps on the real gateway stacks", "§3 C10"),
     "C11": ("exploration",
             "Write-time ledger at the serial.write() / MQTT publish() boundary under the real limiter code on a virtual clock (time.perf_counter as seen by the transport follows it): arrival patterns = back-to-back single caller, bursts of 2..200 concurrent callers, steady streams above and below the limit, long idle then burst, bucket-drain then mixed sizes, random mixes, payloads 1..48 bytes, virtual minutes to hours. Offline oracles over every window of the ledger (suffix max/min sweeps): bits written <= 384 bit/s x window + 23 040 + bits of the frames pending at the window's start; any k+1 writes span >= (k-1) x 0.05 s; every accepted frame written exactly once, unaltered, in request order; MQTT publishes in any window <= 160 + 1.33/s x window + 1, no publish held for more than 1 s, a drop only when the last minute already saw about 80 publishes.",
